@@ -203,42 +203,55 @@ func (c *Config) Parent() *Config {
 
 // FlattenedKeys return a sorted flattened views of the set keys in the configuration
 func (c *Config) FlattenedKeys(opts ...Option) []string {
-	var keys []string
 	normalizedOptions := makeOptions(opts)
 
 	if normalizedOptions.pathSep == "" {
 		normalizedOptions.pathSep = "."
 	}
 
+	keys := c.flattenedKeys(normalizedOptions)
+	sort.Strings(keys)
+	return keys
+}
+
+func (c *Config) flattenedKeys(opts *options) []string {
+	var keys []string
+
+	collect := func(v value) {
+		// References resolved for v stay active while descending into the
+		// configuration they point to: a setting referencing one of its own
+		// parents is reported as a key instead of being followed forever.
+		active := opts.activeFields
+		opts.activeFields = newFieldSet(active)
+		defer func() { opts.activeFields = active }()
+
+		var err error
+		for resolved := v; err == nil; {
+			dyn, isDyn := resolved.(*cfgDynamic)
+			if !isDyn {
+				var sub *Config
+				if sub, err = resolved.toConfig(opts); err == nil {
+					keys = append(keys, sub.flattenedKeys(opts)...)
+					return
+				}
+				break
+			}
+			resolved, err = dyn.getValue(opts)
+		}
+
+		ctx := v.Context()
+		keys = append(keys, ctx.path(opts.pathSep))
+	}
+
 	if c.IsDict() {
 		for _, v := range c.fields.dict() {
-
-			subcfg, err := v.toConfig(normalizedOptions)
-			if err != nil {
-				ctx := v.Context()
-				p := ctx.path(normalizedOptions.pathSep)
-				keys = append(keys, p)
-			} else {
-				newKeys := subcfg.FlattenedKeys(opts...)
-				keys = append(keys, newKeys...)
-			}
+			collect(v)
 		}
 	} else if c.IsArray() {
 		for _, a := range c.fields.array() {
-			scfg, err := a.toConfig(normalizedOptions)
-
-			if err != nil {
-				ctx := a.Context()
-				p := ctx.path(normalizedOptions.pathSep)
-				keys = append(keys, p)
-			} else {
-				newKeys := scfg.FlattenedKeys(opts...)
-				keys = append(keys, newKeys...)
-			}
+			collect(a)
 		}
 	}
-
-	sort.Strings(keys)
 	return keys
 }
 
